@@ -220,6 +220,11 @@ def jobs(tier):
     if not q:
         chunked += [(500, [10], 49, 7), (1000, [127], 14, 7), (3000, [127], 1022, 511), (3000, [20, 33, 7], 700, 70),
                     (5000, [127], 1024, 512), (200, [2], 8, 8), (200, [6], 1024, 64), (10000, [127], 8192, 4096)]
+    # buffer sizes that are not a multiple of 7 make the raw stream stitch segments together from two writes; with
+    # small sub-blocks such a stitched segment closes a sub-block (the acknowledge is read inside that write)
+    for bsz in ((9, 10, 12, 16) if q else (8, 9, 10, 11, 12, 13, 15, 16, 17, 20)):
+        for b0 in (2, 3):
+            chunked.append((70, [b0], bsz, bsz))
     for n, blks, bsz, chunk in chunked:
         how = "chunks:%d:%d" % (bsz, chunk)
         for crc in (1, 0):
